@@ -102,6 +102,9 @@ func (iq *IQ) UnmarshalXML(d *xml.Decoder, start xml.StartElement) error {
 		if attr.Name.Local == "from" {
 			iq.From = attr.Value
 		}
+		if attr.Name.Local == "lang" {
+			iq.Lang = attr.Value
+		}
 	}
 
 	// decode inner elements
